@@ -27,8 +27,8 @@ NEG = [('replace_verbose_q', ['Inv_X03_Outcome']),
        ('mut_prepend_q', ['Inv_X03_SlotOrder', 'Inv_X03_Pairing']),
        ('impl_q', None)]
 # generator cfg -> how many scenarios of its exhaustive set are replayed (quick, thorough); None = all
-GEN = [('gen_pair', None, None), ('gen_pairsfx', 2500, 30000), ('gen_name', 5000, None), ('gen_nameverbose', 300, None),
-       ('gen_lane', 2500, 30000), ('gen_lane4', 0, 30000), ('gen_merge', 1500, None)]
+GEN = [('gen_pair', 3000, None), ('gen_pairsfx', 0, 30000), ('gen_name', 2500, None), ('gen_nameverbose', 200, None),
+       ('gen_lane', 1500, 30000), ('gen_lane4', 0, 30000), ('gen_merge', 800, None)]
 
 
 def key_fn(ev, clause):
@@ -109,7 +109,8 @@ def _selftests(c, events):
     a['tid'], b['tid'], a['grp'], b['grp'] = 3000, 3001, 77, 77
     evs += [a, b]
     # ... and two accepted calls with different mappings passed off as the same set of files
-    d, g = copy.deepcopy(e0), copy.deepcopy([e for e in good if e['files'] != e0['files'] or e['opts'] != e0['opts']][0])
+    fset = lambda e: sorted(json.dumps({k: v for k, v in f.items() if k != 'name'}, sort_keys=True) for f in e['files'])
+    d, g = copy.deepcopy(e0), copy.deepcopy([e for e in good if fset(e) != fset(e0)][0])
     d['tid'], g['tid'], d['grp'], g['grp'] = 4000, 4001, 78, 78
     evs += [d, g]
     p = os.path.join(vlib.scratch(), 'selftest_liblisting.ndjson')
@@ -136,11 +137,11 @@ def run(tier):
     # spec -> code: TLC enumerates the listings of the bounded model; a seeded sample (quick) / all (thorough) are replayed
     rng = random.Random(c.seed)
     chosen, pool_n = [], 0
-    for name, nq, nt in GEN:
-        n = nq if q else nt
-        if n == 0:
-            continue
-        g = vlib.scenarios('LibraryListing', 'MC_LibraryListing_%s.cfg' % name, env={'JAVA_TOOL_OPTIONS': '-Xmx4g'})['scenarios']
+    use = [(name, nq if q else nt) for name, nq, nt in GEN if (nq if q else nt) != 0]
+    with concurrent.futures.ThreadPoolExecutor(max_workers=3) as ex:
+        pools = list(ex.map(lambda x: vlib.scenarios('LibraryListing', 'MC_LibraryListing_%s.cfg' % x[0],
+                                                     env={'JAVA_TOOL_OPTIONS': '-Xmx3g'})['scenarios'], use))
+    for (name, n), g in zip(use, pools):
         if len(g) < 500:
             raise vlib.MachineryError('scenario generation %s gave only %d listings' % (name, len(g)))
         pool_n += len(g)
